@@ -831,6 +831,83 @@ impl C19 {
                 }
             }
         }
+        // ---- a further object loaded into the same linker afterwards (a plugin): what was linked before stays as
+        // it is (its words were rebased once, not once more), the newcomer's base-relative words are rebased once
+        if !mips && rng.chance(1, 2) {
+            let pstart = 0x2000u64;
+            let code = SegSpec { vaddr: pstart, data: rng.bytes(32), memsz: 32, r: true, w: false, x: true };
+            let dstart = 0x4000u64;
+            let mut data = SegSpec { vaddr: dstart, data: vec![0; 64], memsz: 64, r: true, w: true, x: false };
+            let mut rels: Vec<RelocSpec> = Vec::new();
+            let mut prel: Vec<(u64, u64)> = Vec::new();
+            for j in 0..1 + rng.below(3) {
+                let o = 8 * j;
+                let a = dstart + (rng.below(64) & !3);
+                data.data[o as usize..o as usize + 4].copy_from_slice(&(a as u32).to_le_bytes());
+                rels.push(RelocSpec { offset: dstart + o, sym: 0, rtype: 8, addend: 0 });
+                prel.push((dstart + o, a));
+            }
+            let pfile = format!("plug_{}.so", case_id);
+            let pspec = ElfSpec {
+                class64: false,
+                big_endian: false,
+                machine: 3,
+                etype: 3,
+                entry: 0,
+                segments: vec![code, data],
+                symtab: vec![],
+                dynsyms: vec![SymSpec { name: format!("plug_f_{}", case_id), value: pstart + 4, size: 4, stype: STT_FUNC, bind: 1, defined: true, abs: false }],
+                needed: vec![],
+                soname: Some(pfile.clone()),
+                interp: None,
+                dyn_relocs: rels,
+                plt_relocs: vec![],
+                use_rela: false,
+                extra_dynamic: vec![],
+                meta_vaddr: 0x8000,
+            };
+            let pbuilt = elfgen::build(&pspec);
+            let ppath = self.dir.join(&pfile);
+            if std::fs::write(&ppath, &pbuilt.bytes).is_err() {
+                ctx.harness_errors.push("cannot write scratch ELF".into());
+                return;
+            }
+            let pbase = 0x6000_0000u64 + 0x1000 * rng.below(16);
+            let r = guard(|| linker.load_elf(std::path::Path::new(&pfile), pbase));
+            let _ = std::fs::remove_file(&ppath);
+            ctx.eval();
+            match r {
+                Err(pi) => {
+                    ctx.panic_violation(&format!("{}:link:load_elf_after_link", arch), &pi, describe(&objs));
+                    return;
+                }
+                Ok(Err(e)) => {
+                    ctx.violation(&format!("{}:link:load_elf_after_link_rejected", arch), json!({"objects": describe(&objs), "error": format!("{}", e).chars().take(200).collect::<String>()}));
+                    return;
+                }
+                Ok(Ok(())) => {}
+            }
+            let got2 = match linker.memory() {
+                Ok(m) => image_of(&m),
+                Err(_) => return,
+            };
+            for (a, e) in want.iter() {
+                if got2.get(a).map(|g| g.0) != Some(e.0) {
+                    let rel = reloc_addrs.range(..=*a).next_back().filter(|(ra, _)| *a - **ra < 4).map(|(_, d)| d.clone());
+                    ctx.violation(&format!("{}:link:earlier_object_changed_by_a_later_load_elf", arch), json!({"objects": describe(&objs), "address": format!("0x{:x}", a), "expected": e.0, "got": got2.get(a).map(|g| g.0), "relocation": rel, "plugin_base": format!("0x{:x}", pbase)}));
+                    return;
+                }
+            }
+            for (addr, a) in &prel {
+                let wantw = ((pbase + a) as u32).to_le_bytes();
+                let gotw: Vec<Option<u8>> = (0..4).map(|i| got2.get(&(pbase + addr + i)).map(|g| g.0)).collect();
+                if gotw != wantw.iter().map(|b| Some(*b)).collect::<Vec<_>>() {
+                    ctx.violation(&format!("{}:link:relocated_word_wrong:later_load_elf", arch), json!({"objects": describe(&objs), "word_at": format!("0x{:x}", pbase + addr), "expected": format!("0x{:x}", pbase + a), "got": format!("{:?}", gotw)}));
+                    return;
+                }
+            }
+            ctx.count("link_cases_with_a_later_load_elf");
+        }
         ctx.count("link_cases_checked");
         let nsym: usize = objs.iter().map(|o| o.sym_words.len()).sum();
         let nrel: usize = objs.iter().map(|o| o.rel_words.len()).sum();
